@@ -491,3 +491,20 @@ Definition relay_len (n : Z) : res Z := if max_size <? n then Panic else Ok (rel
 
 (* Send accepts exactly 1..max bytes *)
 Definition send_accepts (n : Z) : bool := negb ((n <? 1) || (max_size <? n)).
+
+(* receiveWithLimit seen through sizes only: a header with this version byte
+   announcing [announced] bytes, [available] bytes of body behind it on the
+   stream.  Outcome: the size of the message returned. *)
+Definition receive_decision (limit : Z) (version : N) (announced available : Z) : res Z :=
+  if (limit =? 0) || (max_size <? limit) then Err
+  else if negb (version =? frame_version)%N then Err
+  else if limit <? announced then Err
+  else if available <? announced then Err
+  else Ok announced.
+
+(* QuicClient.Receive: the limit it passes itself *)
+Definition receive_limit : Z := max_size.
+
+(* Send of an n-byte message, then Receive on the other end of the stream *)
+Definition send_receive_size (n : Z) : res Z :=
+  if send_accepts n then receive_decision receive_limit frame_version n n else Err.
